@@ -17,7 +17,7 @@
    different files are covered by induction ([C02_interleaved_refines]). *)
 From Coq Require Import NArith ZArith List Lia.
 From FatVerif Require Import Model.Base Model.Table Model.FileM Spec.ByteFile Spec.Image
-  Proofs.ImageProofs Proofs.TableProofs Proofs.FileProofs.
+  Model.Fat Proofs.ImageProofs Proofs.TableProofs Proofs.FatProofs Proofs.FileProofs Proofs.FileFatProofs.
 Open Scope N_scope.
 
 Theorem C02_image_write_frame : forall bs im off o,
@@ -234,6 +234,68 @@ Example C02_seek_short_chain_witness :
   match file_seek pfat pget 4 w h (FromStart 9) with Ok (_, h', p) => p = 4 /\ h_cur h' = Some 2 | _ => False end.
 Proof. vm_compute. split; reflexivity. Qed.
 
+(* ---- the same refinement on the bytes of the FAT region: the get/set laws assumed above are theorems for the
+   FAT12, FAT16 and FAT32 codecs of src/table.rs (Proofs/FatProofs.v) for every slice geometry with at least one
+   copy, so every history of every set of open files over a byte-level FAT (all copies written) is a run of
+   independent byte arrays.  [inv_g base size mirrors]: the slice geometry and "every byte < 256". *)
+Theorem C02_interleaved_refines_fat16 : forall base size mirrors cs total, (1 <= mirrors)%nat -> 0 < cs ->
+  2 * (total + 2) <= size -> total + 2 <= 65527 ->
+  forall ops w hs gs,
+  WorldInv fstore val16 (inv_g base size mirrors) cs total w -> MultiInv fstore val16 cs total w hs gs ->
+  exists w' hs' rs gs', multi_run fstore get16 set16 cs total w hs ops = (w', hs', rs) /\
+    WorldInv fstore val16 (inv_g base size mirrors) cs total w' /\ MultiInv fstore val16 cs total w' hs' gs' /\
+    bf_multi (views fstore w hs gs) ops rs = Some (views fstore w' hs' gs').
+Proof. intros base size mirrors cs total Hm Hcs Hs Ht. exact (multi_run_refines16 base size mirrors Hm cs total Hcs Hs Ht). Qed.
+
+Theorem C02_interleaved_refines_fat32 : forall base size mirrors cs total, (1 <= mirrors)%nat -> 0 < cs ->
+  4 * (total + 2) <= size -> total + 2 <= 268435447 ->
+  forall ops w hs gs,
+  WorldInv fstore val32 (inv_g base size mirrors) cs total w -> MultiInv fstore val32 cs total w hs gs ->
+  exists w' hs' rs gs', multi_run fstore get32 set32 cs total w hs ops = (w', hs', rs) /\
+    WorldInv fstore val32 (inv_g base size mirrors) cs total w' /\ MultiInv fstore val32 cs total w' hs' gs' /\
+    bf_multi (views fstore w hs gs) ops rs = Some (views fstore w' hs' gs').
+Proof. intros base size mirrors cs total Hm Hcs Hs Ht. exact (multi_run_refines32 base size mirrors Hm cs total Hcs Hs Ht). Qed.
+
+Theorem C02_interleaved_refines_fat12 : forall base size mirrors cs total, (1 <= mirrors)%nat -> 0 < cs ->
+  off12 (total + 1) + 2 <= size -> total + 2 <= 4087 ->
+  forall ops w hs gs,
+  WorldInv fstore val12 (inv_g base size mirrors) cs total w -> MultiInv fstore val12 cs total w hs gs ->
+  exists w' hs' rs gs', multi_run fstore get12 set12 cs total w hs ops = (w', hs', rs) /\
+    WorldInv fstore val12 (inv_g base size mirrors) cs total w' /\ MultiInv fstore val12 cs total w' hs' gs' /\
+    bf_multi (views fstore w hs gs) ops rs = Some (views fstore w' hs' gs').
+Proof. intros base size mirrors cs total Hm Hcs Hs Ht. exact (multi_run_refines12 base size mirrors Hm cs total Hcs Hs Ht). Qed.
+
+(* non-vacuity on bytes: a blank two-copy FAT16 of 8 data clusters at byte 512 (20 bytes per copy), cluster size 4;
+   the history of [C02_example_run] gives the same results, and both copies of the table hold the chain 2 -> 3 *)
+Definition ex_store16 : fstore := {| fs_img := img_empty 0; fs_base := 512; fs_size := 20; fs_mirrors := 2 |}.
+Definition ex_world16 : fworld fstore :=
+  {| w_fat := ex_store16; w_fi := {| fi_free := Some 8; fi_next := None; fi_dirty := false |};
+     w_data := fun _ => [0; 0; 0; 0] |}.
+Example C02_example_world16 :
+  WorldInv fstore val16 (inv_g 512 20 2) 4 8 ex_world16 /\ MultiInv fstore val16 4 8 ex_world16 [empty_file] [(0, [])].
+Proof.
+  split.
+  - split; [|split; [split; [reflexivity|exact I]|reflexivity]].
+    split; [reflexivity|]. split; [reflexivity|]. split; [reflexivity|]. apply img_empty_bytes_ok. reflexivity.
+  - split; [reflexivity|]. split.
+    + intros [|i] h g Hh Hg; cbn in Hh, Hg; [|destruct i; discriminate]. injection Hh as <-. injection Hg as <-.
+      constructor; cbn; try reflexivity; try (intros _ []); try constructor.
+      * eexists. repeat split.
+      * discriminate.
+    + intros [|i] [|j] g1 g2 Hne H1 H2; cbn in H1, H2; try (destruct i; discriminate); try (destruct j; discriminate).
+      congruence.
+Qed.
+Example C02_example_run16 :
+  let ops := [FWrite [1; 2; 3; 4; 5; 6]; FWrite [5; 6]; FSeek (FromStart 1); FRead 10; FRead 10; FSeek (FromEnd 7);
+              FSeek (FromCurrent (-7)); FSeek (FromStart 5); FTruncate; FSeek (FromStart 0); FRead 3] in
+  let '(w', h', rs) := file_run fstore get16 set16 4 8 ex_world16 empty_file ops in
+  rs = [RCount 4; RCount 2; RPos 1; RBytes [2; 3; 4]; RBytes [5; 6]; RPos 6; RFail EInvalidInput; RPos 5; RDone; RPos 0;
+        RBytes [1; 2; 3]]
+  /\ img_read (fs_img (w_fat fstore w')) (512 + 4) 4 = [3; 0; 255; 255]
+  /\ img_read (fs_img (w_fat fstore w')) (512 + 20 + 4) 4 = [3; 0; 255; 255]
+  /\ bf_run ([], 0) ops rs = Some ([1; 2; 3; 4; 5], 3).
+Proof. vm_compute. repeat split. Qed.
+
 Print Assumptions C02_image_write_frame.
 Print Assumptions C02_read_spec.
 Print Assumptions C02_seek_spec.
@@ -244,3 +306,6 @@ Print Assumptions C02_step_refines.
 Print Assumptions C02_run_refines.
 Print Assumptions C02_run_refines_from.
 Print Assumptions C02_interleaved_refines.
+Print Assumptions C02_interleaved_refines_fat16.
+Print Assumptions C02_interleaved_refines_fat32.
+Print Assumptions C02_interleaved_refines_fat12.
